@@ -15,7 +15,7 @@ from ..xh import Harness
 from ..main import PropSpec
 
 OPS = ["add-thread", "add-process", "add-remote", "run", "kill-a-child", "restart-workers", "make-a-worker-stuck", "failing-registration",
-       "run-whose-callback-raises"]
+       "run-whose-callback-raises", "restart-workers-without-force"]
 EXITS = ["with-exit", "with-body-raises", "close", "terminate"]
 FORCE = [None, True, False]
 
@@ -149,6 +149,22 @@ def _run(W, ops, exitmode, tmo, force):
                 for w in pool.workers:
                     if not w.is_alive():
                         return "c09.worker-not-alive-after-restart_workers"
+            elif op == "restart-workers-without-force":
+                # with a stuck worker and force=False the restart legitimately fails (RuntimeError); whatever happened to the
+                # pool's bookkeeping by then, leaving the pool must still reap every child
+                if stuck and has_thread:
+                    continue
+                try:
+                    pool.restart_workers(timeout=tmo, force=False)
+                except RuntimeError:
+                    if not stuck:
+                        return "c09.restart_workers-raises"
+                    continue
+                if stuck:
+                    return "c09.restart_workers-claims-success-with-a-stuck-worker-and-no-force"
+                for w in pool.workers:
+                    if not w.is_alive():
+                        return "c09.worker-not-alive-after-restart_workers"
             elif op == "make-a-worker-stuck":
                 for w in pool.workers:
                     if w.is_alive() and not w.is_thread:
@@ -200,6 +216,11 @@ def _run(W, ops, exitmode, tmo, force):
             return "c09.child-process-outlives-the-pool"
         if w.is_alive():
             return "c09.worker-alive-after-pool-exit"
+    if force is not False:
+        # independent of the pool's own bookkeeping: every process the history ever spawned
+        for pid, pr in sorted(children(W).items()):
+            if not pr.exited:
+                return "c09.child-process-outlives-the-pool|forgotten-by-the-pool"
     if pool._queues:
         return "c09.queues-left-after-close"
     return None
@@ -214,8 +235,10 @@ _FUNCS = ["pyworkers.pool:Pool.add_worker", "pyworkers.pool:Pool.attach", "pywor
 H_HIST = Harness(
     "hist", "vf.props.c09:h_hist", _params,
     tiers={
-        "quick": {"ranges": {"n": (0, 3)}, "fixed": {"o4": 0, "o5": 0, "tmo": 0}, "partition": ["n", "o1", "exitmode"], "timeout": 300,
-                  "filter": (lambda f: f["o1"] in (0, 1, 2) or f["n"] == 0), "twin_fixed": {"n": 3, "o1": 1, "exitmode": 0}},
+        "quick": {"ranges": {"n": (0, 4)}, "fixed": {"o5": 0, "tmo": 0}, "partition": ["n", "o1", "exitmode"], "timeout": 300,
+                  # four-step histories: two workers first, the first of them a process worker
+                  "filter": (lambda f: (f["o1"] in (0, 1, 2) or f["n"] == 0) and (f["n"] <= 3 or f["o1"] == 1)),
+                  "extra_pre": ["n <= 3 or (o2 == 1 and (o3 == 6 or o3 == 4) and (o4 == 9 or o4 == 5 or o4 == 3))"], "twin_fixed": {"n": 3, "o1": 1, "exitmode": 0}},
         "thorough": {"ranges": {"n": (0, 4)}, "fixed": {"o5": 0}, "partition": ["n", "o1", "o2", "exitmode", "force"], "timeout": 2400,
                      "filter": (lambda f: f["o1"] in (0, 1, 2) or f["n"] == 0), "twin_fixed": {"n": 3, "o1": 1, "o2": 3, "exitmode": 0, "force": 0}},
     },
